@@ -124,6 +124,7 @@ def cpython_compiles(src):
 
 def run(chk, build, replay=None):
     common.standard_proof_part(chk, build, VFILES)
+    propkit.replay_known(chk, "C08")      # listed design-level deviations of this property: re-confirmed on the real code
     chk.trusted += [
         "C08: statements after a literal break/continue/return in the same block are never converted (they cannot run); "
         "an unsupported construct there is not rejected and is outside the theorem (reaches_unsupported) and the oracle",
